@@ -386,13 +386,22 @@ def r8(ctx: Ctx) -> None:
     ok = False
     if len(out) == 1 and lw[2] == ("p", 0) and cw[-1] == ("ret", out[0]):
         body = lw[3]
-        recs = [st for st in body if st[0] == "set" and st[2] == ("comp", "list", (("a", ("b", 1, 0), "name"),), ((("b", 1, 0), ("a", e, "modules"), K_TRUE),))]
+        # the record of one net: a fresh list filled with the member names in order (a comprehension has this loop form)
+        recs = []
+        for st in body:
+            if st[0] == "set" and len(st) == 3 and st[2] == ("list", ()):
+                fill = [lp for lp in body if lp[0] == "for" and len(lp) == 5 and lp[2] == ("a", e, "modules") and
+                        lp[3] == (("expr", ("c", ("a", st[1], "append"), (("a", lp[1], "name"),), ())),)]
+                if len(fill) == 1:
+                    recs.append((st[1], fill[0]))
         if len(recs) == 1:
-            rec = recs[0][1]
+            rec, fill = recs[0]
             wcond = [st for st in body if st[0] == "if" and st[1] == mk_not(mk_eq(("a", e, "weight"), k_num(1))) and
                      st[2] == (("expr", ("c", ("a", rec, "append"), (("a", e, "weight"),), ())),) and st[3] == ()]
             apps = _unconditional_appends(body, out[0])
-            ok = len(wcond) == 1 and apps == [rec] and len(body) == 3 and list(body).index(wcond[0]) < [i for i, st in enumerate(body) if st[0] == "expr"][-1]
+            order = [list(body).index(x) for x in ([fill] + wcond)] if wcond else []
+            ok = len(wcond) == 1 and apps == [rec] and len(body) == 4 and order == sorted(order) and \
+                order[-1] < [i for i, st in enumerate(body) if st[0] == "expr"][-1]
     if not ok:
         ctx.report(fw.where, "net-encode", "dump_yaml_edges does not emit, for every net, the member names in order followed by the weight when it differs from 1",
                    lineno=fw.node.lineno)
